@@ -175,3 +175,9 @@ def streams(tier, rng):
     yield {'name': 'reject-malformed', 'op': 'C17b', 'cases': malformed(rng, 5000 if tier == 'quick' else 80000)}
     yield {'name': 'latest-permutations', 'op': 'C17c', 'cases': perms(), 'exhaustive': True}
     yield {'name': 'latest-lists', 'op': 'C17c', 'cases': lists(rng, 3000 if tier == 'quick' else 40000)}
+
+
+def normalize(op, inp):
+    if op == 'C17a':
+        return mk(*inp[:5])
+    return inp
